@@ -229,8 +229,11 @@ pub fn gen_addr(rng: &mut Rng) -> String {
 }
 
 pub fn gen_target(rng: &mut Rng, i: usize) -> TargetSpec {
-    let addr = match rng.below(4) {
+    let addr = match rng.below(6) {
         0 => format!("[fd00::{:x}]:{}", rng.range(1, 0xffff), rng.range(1, 65535)),
+        // legal but unusual: IPv4-mapped and IPv4-compatible IPv6, loopback, unspecified, port boundaries
+        4 => format!("[::ffff:10.{}.{}.{}]:{}", rng.below(256), rng.below(256), rng.range(1, 254), rng.range(1, 65535)),
+        5 => (*rng.pick(&["[::1]:25565", "[::]:1", "0.0.0.0:65535", "[::10.0.0.9]:25566", "127.0.0.1:0", "255.255.255.255:1", "[2001:db8:0:0:1:0:0:1]:443"])).to_string(),
         _ => format!("10.{}.{}.{}:{}", rng.below(256), rng.below(256), rng.range(1, 254), rng.range(1, 65535)),
     };
     let mut meta = std::collections::BTreeMap::new();
